@@ -82,7 +82,7 @@ func (p *videoParams) facts(kind string) videoFacts {
 	case "h264":
 		// geometry and timing were chosen by h264SPS's caller: recover them from the variant table
 		for k := 0; k < 16; k++ {
-			q := videoParamVariant("h264", k)
+			q := videoParamVariantR("h264", k, p.reorder)
 			if string(q.sps) == string(p.sps) {
 				dims := [][2]int{{120, 68}, {80, 45}, {40, 30}, {20, 15}}[k%4]
 				fps := []float64{30, 0, 25, 30000.0 / 1001.0}[k%4]
